@@ -16,7 +16,7 @@ class P(b1.Plugin):
 
     def make(self, rng, i):
         kind = rng.choice(["struct", "enum", "enum"])
-        td = gen.make_skeleton(rng, i, kind, ["L", "L", "F", "S"])
+        td = gen.make_skeleton(rng, i, kind, ["L", "L", "F", "S", "PD"])
         with_eq = rng.random() < 0.4
         metas = ["PartialEq"] + (["Eq"] if with_eq else [])
         rng.shuffle(metas)
@@ -24,8 +24,8 @@ class P(b1.Plugin):
         for v in td.variants:
             for f in v.fields:
                 r = rng.random()
-                req = {"ignore": r < 0.3, "method": gen.METHOD_LEAVES.index(f.ty) if 0.3 <= r < 0.6 else None}
-                if rng.random() < 0.05:   # both: ignored field that also names a method
+                req = {"ignore": r < 0.3, "method": gen.METHOD_LEAVES.index(f.ty) if (0.3 <= r < 0.6 and f.ty in gen.METHOD_LEAVES) else None}
+                if rng.random() < 0.05 and f.ty in gen.METHOD_LEAVES:   # both: ignored field that also names a method
                     req = {"ignore": True, "method": gen.METHOD_LEAVES.index(f.ty)}
                 f.req["PartialEq"] = req
                 carrier = "Eq" if (with_eq and rng.random() < 0.4) else "PartialEq"
